@@ -15,7 +15,7 @@ func TestC17(t *testing.T) {
 			"and sibling files of the package (tagged and untagged) that hold marked interfaces or the package's only Convergen. "+
 			"Oracle: exit 0 iff the input file itself holds a converter interface; generated functions = exactly the methods of those interfaces (each once, nothing else new); every other interface is carried over token-identically (Engine L differ); siblings byte-identical. "+
 			"Non-trivial: file mixing >= 2 interface kinds, or with a sibling holding a marked interface, or without converter; distinct by setup text and siblings.",
-		300, 9000,
+		2000, 30000,
 		func(rt *rapid.T) layoutMeta {
 			f := pg.GenLayoutFile(rt, pg.LayoutProfile{MaxItems: 6, MaxConverters: 3, Comments: rapid.Bool().Draw(rt, "comments"), Unmarked: true, SameNames: true, NoConverter: true})
 			m := layoutMeta{Siblings: map[string]string{}}
